@@ -1084,6 +1084,9 @@ def sort_catalogue_stream(ctx: Ctx) -> None:
 
 PRES_SOURCES = [
     {"m.py": TIES_BASE},
+    # class-private names (__x) neither mask nor are masked across classes (model.is_class_private, /repo d869973)
+    {"cp.py": "class A:\n    __secret = 1\n    __dunder__ = 2\n    plain = 3\n    def __hidden(self): pass\n"
+              "class B(A):\n    __secret = 4\n    __dunder__ = 5\n    def __hidden(self): pass\nclass C(B):\n    plain = 6\n    __secret = 7\n"},
     {"rc.py": "import ext\nclass A(ext.Foo): pass\nclass B(ext.foo): pass\nclass C(ext.FOO): pass\nclass Top: pass\nclass top: pass\n"
               "class D(Top): pass\nclass d(Top): pass\nclass E(Top, ext.Foo): pass\n"},
     {"zi.py": "from zope.interface import Interface, implementer\nclass IFoo(Interface): pass\nclass ifoo(Interface): pass\n"
